@@ -871,6 +871,11 @@ func SubstituteParameters(layout Layout,
 
 	replacer := strings.NewReplacer(parameters...)
 
+	// The layout was passed by value but its slices still share their
+	// backing arrays with the caller's layout: substitute in copies.
+	layout.Steps = append([]Step(nil), layout.Steps...)
+	layout.Inspect = append([]Inspection(nil), layout.Inspect...)
+
 	for i := range layout.Steps {
 		layout.Steps[i].ExpectedMaterials = substituteParametersInSliceOfSlices(
 			replacer, layout.Steps[i].ExpectedMaterials)
